@@ -91,6 +91,12 @@ func genLineSeqValue(t *rapid.T, label string) (string, []string) {
 			if txt == "." {
 				txt = ".."
 			}
+			if rapid.IntRange(0, 39).Draw(t, label+"long") == 0 {
+				// a line longer than the reader's 4096-byte buffer, around the buffer marks
+				n := rapid.SampledFrom([]int{4070, 4085, 4090, 4096, 4100, 8185, 8192, 8200, 13000}).Draw(t, label+"longn") + rapid.IntRange(-3, 3).Draw(t, label+"longd")
+				txt = strings.Repeat("0123456789", n/10+1)[:n]
+				feats = append(feats, "long-line")
+			}
 			lines = append(lines, txt)
 		}
 	}
